@@ -17,6 +17,7 @@ func init() {
 	register("C17", &propSpec{
 		level:       "other",
 		explanation: "Attribute and mode conversions decided from extracted tables and provenance: toFileMode and fromFileMode (permission mask, 7-way type switch, three special-bit ladders) equal the POSIX↔os oracle and are mutually inverse on every type constant, special bit and the permission mask (exhaustive over the extracted tables); toChmodPerm, isRegular and the sshfx constants and type letters agree; the attributes reported for a file come from the FileInfo's own Size/Mode/ModTime/owner (uid/gid override guarded by the type assertion only); both set-attribute handlers apply exactly SIZE→Truncate, PERMISSIONS→Chmod, UIDGID→Chown, ACMODTIME→Chtimes(atime, mtime) under their own flag; client setters pair flag and payload; the long name is built from the same FileInfo.",
+		quickExtra:  []BuildConfig{cfg386},
 		run:         runC17,
 		assumptions: []string{"what the host file system reports is out of scope"},
 	})
@@ -201,6 +202,8 @@ func runC17(c *Ctx) {
 	pos := func(in ssa.Instruction) string { return p.Pos(in.Pos()) }
 	checkSpecialBitsCombine(c, "R1")
 	checkTimesAreUnsigned32(c, "R8")
+	checkLongNameOwnerPairs(c, "R11")
+	checkFileInfoIsDirAgreesWithMode(c, "R12")
 	// R9 (shared with C07.R6): the attribute bytes a set-attributes request hands to the server or to the handler are
 	// the bytes its decoder validated against the flags word
 	checkAttrsValidatedAtDecode(c, "R9")
@@ -699,6 +702,40 @@ func runC17(c *Ctx) {
 			})
 		}
 		c.check(pairs["UID"] == "Uid" && pairs["GID"] == "Gid", "R2", "Stat_t owner", p.Pos(fo.Pos()), "UID ← Stat_t.Uid, GID ← Stat_t.Gid", fmt.Sprintf("owner fields are filled as %v", pairs))
+		// whatever the source of the owner is (Stat_t, the sibling codec's Attributes, another FileStat, the
+		// FileInfoUidGid methods): UID comes from something called uid, GID from something called gid
+		nOwner := 0
+		for f := range p.cone(fs) {
+			if f != fs && fnName(f) != "fileStatFromInfoOs" {
+				continue
+			}
+			f := f
+			eachInstr(f, func(in ssa.Instruction) {
+				st, ok := in.(*ssa.Store)
+				if !ok {
+					return
+				}
+				t, n, _, ok := fieldOf(st.Addr)
+				if !ok || typeName(t) != "FileStat" || (n != "UID" && n != "GID") {
+					return
+				}
+				for _, l := range leavesOf(st.Val) {
+					src := ""
+					switch l.Kind {
+					case leafFieldLoad:
+						src = l.Field
+					case leafCallResult:
+						src = calleeName(l.Call)
+					default:
+						continue
+					}
+					nOwner++
+					c.check(strings.EqualFold(src, n), "R2", fmt.Sprintf("FileStat.%s in %s comes from a %s", n, fnName(f), strings.ToLower(n)), pos(in), "← "+src,
+						fmt.Sprintf("FileStat.%s is filled from %s: the owner and the group of the reported attributes are mixed up", n, src))
+				}
+			})
+		}
+		c.check(nOwner >= 4, "R2", "owner sources", p.Pos(fs.Pos()), fmt.Sprintf("%d sources", nOwner), fmt.Sprintf("only %d sources of FileStat.UID/GID found", nOwner))
 	}
 	// accessors
 	for _, acc := range []struct{ fn, want string }{
@@ -1612,4 +1649,126 @@ func checkSetstatApplication(c *Ctx, withTargetsAndOrder bool) {
 			checkSetstatTargetsAndOrder(c, "R3")
 		}
 	}
+}
+
+// checkLongNameOwnerPairs (C17.R11): the long name's owner and group columns.  In lsLinksUIDGID (the per-OS helper) the
+// second result is formatted from a field called uid and the third from one called gid; lsFormatID formats all 32 bits
+// of the id without a detour through a narrower or signed type (int is 32 bits on 386: ids from 2^31 up would come out
+// negative while the attribute block carries the real number).
+func checkLongNameOwnerPairs(c *Ctx, rule string) {
+	p := c.P
+	if goos := goosOf(p.Cfg); goos == "windows" || goos == "plan9" {
+		c.okT(rule, "long name owner columns", "?", "the per-OS helper is a stub under "+goos)
+	} else if fn := p.Func("lsLinksUIDGID"); fn == nil {
+		c.missing(rule, "lsLinksUIDGID")
+	} else {
+		for idx, want := range map[int]string{1: "uid", 2: "gid"} {
+			srcs := map[string]bool{}
+			for _, rl := range returnLeaves(fn, idx) {
+				for _, l := range leavesOf(rl.v) {
+					if l.Kind == leafCallResult {
+						for _, a := range argsOf(l.Call) {
+							for _, l2 := range leavesOf(a) {
+								if l2.Kind == leafFieldLoad {
+									srcs[strings.ToLower(l2.Field)] = true
+								}
+							}
+						}
+					}
+					if l.Kind == leafFieldLoad {
+						srcs[strings.ToLower(l.Field)] = true
+					}
+				}
+			}
+			okSrc := len(srcs) >= 1
+			var names []string
+			for s := range srcs {
+				names = append(names, s)
+				if s != want {
+					okSrc = false
+				}
+			}
+			sort.Strings(names)
+			c.check(okSrc, rule, "long name "+want+" column comes from the "+want, p.Pos(fn.Pos()), "← Stat_t."+want, fmt.Sprintf("the %s column of the long name is formatted from %v: the long name and the attribute block disagree about the owner", want, names))
+		}
+	}
+	if f := p.Func("lsFormatID"); f == nil {
+		c.missing(rule, "lsFormatID")
+	} else if len(f.Params) == 1 {
+		var bad *ssa.Convert
+		sizes := types.SizesFor("gc", p.Cfg.GOARCH)
+		eachInstr(f, func(in ssa.Instruction) {
+			cv, ok := in.(*ssa.Convert)
+			if !ok || sizes == nil {
+				return
+			}
+			from, okF := cv.X.Type().Underlying().(*types.Basic)
+			to, okT := cv.Type().Underlying().(*types.Basic)
+			if !okF || !okT || from.Info()&types.IsInteger == 0 || to.Info()&types.IsInteger == 0 {
+				return
+			}
+			// from the unsigned 32-bit id to something that cannot hold all of its values
+			if from.Info()&types.IsUnsigned != 0 {
+				if sizes.Sizeof(cv.Type()) < sizes.Sizeof(cv.X.Type()) || (to.Info()&types.IsUnsigned == 0 && sizes.Sizeof(cv.Type()) <= sizes.Sizeof(cv.X.Type())) {
+					bad = cv
+				}
+			}
+		})
+		c.check(bad == nil, rule, "lsFormatID formats all 32 bits", p.Pos(f.Pos()), "no conversion that loses values of the id", func() string {
+			if bad == nil {
+				return ""
+			}
+			return "the id is converted to " + bad.Type().String() + " before it is formatted: ids from 2^31 up print as negative numbers (on this configuration) while the attributes carry the real value"
+		}())
+	}
+}
+
+// checkFileInfoIsDirAgreesWithMode (C17.R12): the os.FileInfo the client hands out answers IsDir() the way its Mode()
+// does — true for S_IFDIR alone.  Both methods are run by the interpreter for the 16 values of the wire type field
+// (os.FileMode.IsDir is taken for what it is: m&ModeDir != 0).  A bit test in place of the type comparison makes sockets
+// and block devices directories (their type values contain the directory bit).
+func checkFileInfoIsDirAgreesWithMode(c *Ctx, rule string) {
+	p := c.P
+	fiT := p.NamedType(p.Sftp, "fileInfo")
+	fsT := p.NamedType(p.Sftp, "FileStat")
+	if fiT == nil || fsT == nil {
+		c.missing(rule, "fileInfo / FileStat")
+		return
+	}
+	isDir := p.methodOf(types.NewPointer(fiT), "IsDir")
+	if isDir == nil {
+		c.missing(rule, "(*fileInfo).IsDir")
+		return
+	}
+	modeDir := osModeConst(p, "ModeDir")
+	wrong, und := "", false
+	for t := int64(0); t < 16 && wrong == "" && !und; t++ {
+		for _, perm := range []int64{0, 0o644} {
+			ev := newEvaluator(p)
+			ev.opaque = func(callee *ssa.Function, args []evVal) (evVal, bool) {
+				if callee.Pkg != nil && callee.Pkg.Pkg.Path() == "io/fs" && callee.Name() == "IsDir" && len(args) == 1 && args[0].k == evConst {
+					if m, ok := constant.Int64Val(constant.ToInt(args[0].c)); ok {
+						return evBool(m&modeDir != 0), true
+					}
+				}
+				return evVal{}, false
+			}
+			stat := &evObj{typ: fsT, fields: map[string]evVal{"Mode": evInt(t<<12|perm, types.Typ[types.Uint32])}}
+			fi := &evObj{typ: fiT, fields: map[string]evVal{"stat": {k: evObject, obj: stat}}}
+			res := ev.run(isDir, []evVal{{k: evObject, obj: fi}}, 0)
+			if res.kind != "return" || len(res.vals) != 1 || res.vals[0].k != evConst || res.vals[0].c.Kind() != constant.Bool {
+				und = true
+				break
+			}
+			if got := constant.BoolVal(res.vals[0].c); got != (t == 4) {
+				wrong = fmt.Sprintf("IsDir() of mode %#o is %v", t<<12|perm, got)
+				break
+			}
+		}
+	}
+	if und {
+		c.und(rule, "fileInfo.IsDir is true for directories alone", p.Pos(isDir.Pos()), "(*fileInfo).IsDir cannot be evaluated")
+		return
+	}
+	c.check(wrong == "", rule, "fileInfo.IsDir is true for directories alone", p.Pos(isDir.Pos()), "evaluated for the 16 values of the type field", wrong+": the entry's IsDir() disagrees with its Mode() (Walk, RemoveAll and Glob descend into things that are not directories, or skip directories)")
 }
